@@ -104,12 +104,17 @@ class Truncate(VC):
 
     def setup(self, I, st):
         self.s, self.end = sym("s", "str"), sym("end", "str")
-        self.length, self.leeway = sym("length", "int"), sym("leeway", "int")
+        self.length = sym("length", "int")
+        # the leeway argument and the policy value are different symbols: the argument (0 included) is used when
+        # one is given, the policy value only when the argument is None
+        self.arg_leeway, self.policy_leeway = sym("leeway", "int"), sym("policy_leeway", "int")
+        self.leeway = self.policy_leeway if self.policy else self.arg_leeway
         self.kill = sym("killwords", "bool")
-        st.assume(self.length.t >= z3.Length(self.end.t), self.leeway.t >= 0)
-        pol = st.alloc(HDict(items={"truncate.leeway": self.leeway}), initial=True)
+        st.assume(self.length.t >= z3.Length(self.end.t), self.arg_leeway.t >= 0, self.policy_leeway.t >= 0)
+        st.assume(to_term(self.arg_leeway, "obj") != host_const(None))  # an int argument is not None (0 included)
+        pol = st.alloc(HDict(items={"truncate.leeway": self.policy_leeway}), initial=True)
         env = A.obj(st, jinja2.Environment, "env", fields={"policies": pol})
-        return [env, self.s, self.length, self.kill, self.end, None if self.policy else self.leeway], {}
+        return [env, self.s, self.length, self.kill, self.end, None if self.policy else self.arg_leeway], {}
 
     def p_total(self, pre, out):
         return not out.raised
@@ -153,25 +158,49 @@ class Truncate(VC):
     def concretize(self, model, pre, out):
         return {"s": model_value(model, self.s.t), "length": model_value(model, self.length.t),
                 "killwords": bool(model_value(model, self.kill.t)), "end": model_value(model, self.end.t),
-                "leeway": model_value(model, self.leeway.t), "policy": self.policy}
+                "leeway": None if self.policy else model_value(model, self.arg_leeway.t),
+                "policy_leeway": model_value(model, self.policy_leeway.t)}
 
     def replay(self, w):
         return replay_truncate(w)
 
 
 def replay_truncate(w):
+    """leeway: the argument (None = not given); policy_leeway: env.policies['truncate.leeway']"""
     env = jinja2.Environment()
-    s, n, kw, end, lee = w["s"], int(w["length"]), bool(w["killwords"]), w["end"], int(w["leeway"])
-    if n < len(end) or lee < 0:
+    s, n, kw, end = w["s"], int(w["length"]), bool(w["killwords"]), w["end"]
+    arg = w.get("leeway")
+    pol = int(w.get("policy_leeway", env.policies["truncate.leeway"]))
+    env.policies["truncate.leeway"] = pol
+    lee = pol if arg is None else int(arg)  # documented: the policy value is only the default
+    if n < len(end) or lee < 0 or pol < 0:
         return (False, "witness outside the precondition")
-    if w.get("policy"):
-        env.policies["truncate.leeway"] = lee
     try:
-        r = F.do_truncate(env, s, n, kw, end, None if w.get("policy") else lee)
+        r = F.do_truncate(env, s, n, kw, end, arg)
     except Exception as ex:  # noqa
-        return (True, f"do_truncate({s!r}, {n}, {kw}, {end!r}, {lee}) raised {ex!r}")
-    bad = not spec_truncate(s, n, kw, end, lee)(r)
-    return (bad, f"do_truncate({s!r}, {n}, {kw}, {end!r}, leeway={lee}) = {r!r}")
+        return (True, f"do_truncate({s!r}, {n}, {kw}, {end!r}, {arg}) [policy leeway {pol}] raised {ex!r}")
+    bad = not spec_truncate(s, n, kw, end, lee)(r) or ("want" in w and r != w["want"])
+    return (bad, f"do_truncate({s!r}, {n}, {kw}, {end!r}, leeway={arg}) [policy leeway {pol}] = {r!r}" + (f", documented {w['want']!r}" if "want" in w else ""))
+
+
+TRUNCATE_DOC = [  # the examples of the docstring (default policy leeway 5)
+    {"s": "foo bar baz qux", "length": 9, "killwords": False, "end": "...", "leeway": None, "policy_leeway": 5, "want": "foo..."},
+    {"s": "foo bar baz qux", "length": 9, "killwords": True, "end": "...", "leeway": None, "policy_leeway": 5, "want": "foo ba..."},
+    {"s": "foo bar baz qux", "length": 11, "killwords": False, "end": "...", "leeway": None, "policy_leeway": 5, "want": "foo bar baz qux"},
+    {"s": "foo bar baz qux", "length": 11, "killwords": False, "end": "...", "leeway": 0, "policy_leeway": 5, "want": "foo bar..."},
+]
+
+
+def cases_truncate(tier, seed):
+    yield from TRUNCATE_DOC
+    for s in strings(["a", " ", "<"], 6):
+        for length in (1, 2, 4):
+            for end in ("", ".", ".."):
+                if length < len(end):
+                    continue
+                for kw in (False, True):
+                    for arg, pol in ((None, 0), (None, 2), (0, 2), (1, 0), (2, 5), (0, 0)):
+                        yield {"s": s, "length": length, "killwords": kw, "end": end, "leeway": arg, "policy_leeway": pol}
 
 
 # =====================================================================================
@@ -976,6 +1005,8 @@ def cases_wrappers(tier, seed):
 
 
 BOUNDED = [
+    Bounded("C23.bounded.truncate", cases_truncate, replay_truncate,
+            "the four docstring examples; all strings of length <= 6 over {a, space, <} x length in {1,2,4} x end in {'', '.', '..'} x killwords x 6 (leeway argument, policy leeway) pairs incl. explicit 0 against a different policy value"),
     Bounded("C23.bounded.indent", cases_indent, check_indent,
             "all strings of length <= 5 over {a, space, \\n, <, \\r, \\t, U+2028} x width in {0, 2, '>>'} x first x blank, plus 200 seeded strings of length 6..40",
             classify_indent),
